@@ -29,6 +29,7 @@ type ilStmt struct {
 	ID2  int32  `json:"id2,omitempty"`
 	K    int32  `json:"k,omitempty"`
 	Tok  string `json:"tok,omitempty"`
+	Scan bool   `json:"scan,omitempty"` // rmw-read through the sequential-scan path (WHERE id = x OR id < 0)
 }
 
 type ilProg struct {
@@ -71,6 +72,9 @@ func ilInitial() ilState {
 func (st *ilStmt) sql(reg map[int32]string) string {
 	switch st.Kind {
 	case "read-idx", "rmw-read":
+		if st.Scan {
+			return fmt.Sprintf("SELECT id, k, v FROM t WHERE id = %d OR id < 0;", st.ID)
+		}
 		return fmt.Sprintf("SELECT id, k, v FROM t WHERE id = %d;", st.ID)
 	case "read-scan":
 		return fmt.Sprintf("SELECT id, k, v FROM t WHERE id = %d OR id < 0;", st.ID)
@@ -200,7 +204,7 @@ func genIlStmt(r *rand.Rand, tok string, rmw bool, fresh *int32) ilStmt {
 	if rmw {
 		switch r.Intn(5) {
 		case 0, 1:
-			return ilStmt{Kind: "rmw-read", ID: id}
+			return ilStmt{Kind: "rmw-read", ID: id, Scan: r.Intn(2) == 0}
 		case 2, 3:
 			return ilStmt{Kind: "rmw-append", ID: id, Tok: tok}
 		default:
@@ -317,6 +321,7 @@ func ilCase(env *core.Env, idx int, prop string) *core.CaseResult {
 				}
 				if st.Kind == "rmw-append" && !seen[st.ID] {
 					st.Kind = "rmw-read"
+					st.Scan = r.Intn(2) == 0
 					seen[st.ID] = true
 				}
 			}
